@@ -121,7 +121,7 @@ func (e *Engine) addObl(fn *ssa.Function, kind, text string, pos token.Pos, reac
 	k := e.occ[base]
 	e.occ[base] = k + 1
 	name := fmt.Sprintf("%s@%d", base, k)
-	if kind == "post" || kind == "inv.init" || kind == "inv.preserved" || kind == "dec" || kind == "lemma" || kind == "frame" || kind == "pre-of" {
+	if kind == "post" || kind == "inv.init" || kind == "inv.preserved" || kind == "dec" || kind == "lemma" || kind == "frame" || kind == "pre-of" || kind == "frame.init" || kind == "frame.preserved" {
 		name = base
 		if k > 0 {
 			name = fmt.Sprintf("%s@%d", base, k)
@@ -135,7 +135,7 @@ func (e *Engine) addObl(fn *ssa.Function, kind, text string, pos token.Pos, reac
 	e.obls = append(e.obls, o)
 	// assert-then-assume for mid-path obligations only (end-of-path obligations are independent of each other)
 	switch kind {
-	case "post", "frame", "inv.preserved", "dec":
+	case "post", "frame", "inv.preserved", "dec", "frame.preserved":
 	default:
 		e.sc.assert(implies(reach, formula))
 	}
